@@ -114,6 +114,17 @@ theorem declTemps_strict_raw : ∀ (ts : List Ty) (es : List Expr) (k : Nat) (te
     rw [eval_strict_raw te _ e v hv, ok_bind]
     exact declTemps_strict_raw ts es (k + 1) _ _ _ h
 
+theorem evalArgs_strict_raw (te : C.TyEnv) (s : Store) : ∀ (ps : List (String × Ty)) (es : List Expr) (vs : List Val),
+    C.evalArgs te s .strict ps es = .ok vs → C.evalArgs te s .raw ps es = .ok vs
+  | [], [], _, h => by simpa only [C.evalArgs] using h
+  | [], _ :: _, _, h => by simp only [C.evalArgs] at h; cases h
+  | _ :: _, [], _, h => by simp only [C.evalArgs] at h; cases h
+  | p :: ps, e :: es, vs, h => by
+    rw [C.evalArgs] at h ⊢
+    obtain ⟨v, hv, h⟩ := bind_ok h
+    obtain ⟨vs', hvs, h⟩ := bind_ok h
+    rw [eval_strict_raw te _ e v hv, ok_bind, evalArgs_strict_raw te s ps es vs' hvs, ok_bind]; exact h
+
 theorem exec_strict_raw (f : Nat) :
     (∀ te s st st', C.exec te f s st = .ok st' → C.exec te f s st .raw = .ok st') ∧
     (∀ te i n b st st', C.exec.forLoop te f i n b st = .ok st' → C.exec.forLoop te f i n b st .raw = .ok st') := by
@@ -192,6 +203,27 @@ theorem exec_strict_raw (f : Nat) :
         obtain ⟨v, hv, h⟩ := bind_ok h
         rw [eval_strict_raw te _ e v hv, ok_bind]; exact h
       | brk => rw [C.exec] at h ⊢; exact h
+      | call x g ps ls rt body ret args =>
+        rw [C.exec] at h ⊢
+        obtain ⟨vs, hvs, h⟩ := bind_ok h
+        rw [evalArgs_strict_raw _ _ _ _ _ hvs, ok_bind]
+        obtain ⟨st1, h1, h⟩ := bind_ok h
+        rw [ihe _ body _ st1 h1, ok_bind]
+        by_cases hb : st1.flow = .broke
+        · rw [if_pos hb] at h; cases h
+        · rw [if_neg hb] at h ⊢
+          cases ret with
+          | none => cases x <;> exact h
+          | some e =>
+            cases x with
+            | none =>
+              dsimp only at h ⊢
+              obtain ⟨v, hv, h⟩ := bind_ok h
+              rw [eval_strict_raw _ _ e v hv, ok_bind]; exact h
+            | some x =>
+              dsimp only at h ⊢
+              obtain ⟨v, hv, h⟩ := bind_ok h
+              rw [eval_strict_raw _ _ e v hv, ok_bind]; exact h
     · intro te i n b st st' h
       rw [C.exec.forLoop] at h ⊢
       obtain ⟨iv, hiv, h⟩ := bind_ok h
